@@ -59,8 +59,13 @@ def layered(rng):
     lib = [["proto", None, "lib"]]
     for n in rng.sample(NAMES, rng.randint(1, 3)):
         lib.append(rng.choice([enum, alias, lambda x: msg(x, 2)])(n))
-    root = [["proto", None, "rootp"], ["import", None, rng.choice([None, "L"]), "lib.bitproto"]]
+    root = [["proto", None, "rootp"]]
     taken = []
+    for _ in range(rng.randint(0, 2)):          # declared BEFORE the import: still not visible in lib
+        n = rng.choice([x for x in NAMES if x not in taken])
+        taken.append(n)
+        root.append(rng.choice([enum, alias])(n))
+    root.append(["import", None, rng.choice([None, "L"]), "lib.bitproto"])
     for _ in range(rng.randint(2, 5)):
         cand = [n for n in NAMES + ["M"] if n not in taken]
         if not cand:
@@ -87,8 +92,12 @@ def layered(rng):
                 local.extend([it[2]] + q for q in sub)
         return local
     libq = fill(lib, [])
-    imp = root[1][2] or "lib"
-    fill(root, [[imp] + q for q in libq])
+    imp_item = next(x for x in root if x[0] == "import")
+    imp = imp_item[2] or "lib"
+    k = root.index(imp_item)
+    before = fill(root[:k], [])
+    rest = root[k + 1:]
+    fill(rest, before + [[imp] + q for q in libq])
     return files
 
 
@@ -97,6 +106,7 @@ def run(ck):
     ck.coverage["trusted_base"] = ["Coq 8.16.1 kernel + vm_compute", "tools/translate_front.py",
                                    "tools/front_gen.py printer + ply tokenizer/LALR driver (text <-> tree)",
                                    "tools/run_front.py + CPython 3.12", "no axioms (Print Assumptions: closed)"]
+    fs.ensure_model_translation()
     ck.try_prove("C11.v", model_vo=("theories/Front.vo", "theories/Spec.vo"))
 
     specs = []
@@ -115,7 +125,8 @@ def run(ck):
                            n_imports=(1, 2), max_items=6)
         files, _ = fg.gen_valid(rng, params)
         specs.append(dict(files=copy.deepcopy(files), origin=f"shadow#{i}", code=0))
-        for which in ("later_type", "inner_not_visible", "undefined_type", "const_as_type"):
+        for which in ("later_type", "inner_not_visible", "undefined_type", "const_as_type", "extend_path",
+                      "importer_not_visible"):
             if rng.random() < 0.5:
                 info = fm.mutate(files, rng, which=which)
                 if info:
@@ -166,7 +177,10 @@ def run(ck):
             ck.broken(Broken(f"tie T2: Front.check and the real parser disagree on {c.origin} "
                              "(acceptance, error, or the resolved definition / width of some field)",
                              json.dumps(replay)[:3000]))
-            ck.violation(f"real parser and model disagree on name resolution in {c.origin}", replay, found_input=False)
+            # Front.lookup IS the specified rule (C11_innermost, C11_only_earlier, C11_type_used are theorems
+            # about it): a schema on which the real parser answers differently is a failing input
+            ck.violation(f"the real parser resolves a name differently from the specified rule (Front.lookup) in "
+                         f"{c.origin}", replay, found_input=True)
         if s.get("code") is not None:
             exp_line = s["line"] if s.get("line") is not None else (s["node"][1] if s.get("node") is not None else 0)
             exp_file = (s.get("file") or "") if s["code"] != 0 else ""
